@@ -162,7 +162,7 @@ Theorem internal_only_on_stale_message sp s e :
     | _ => False
     end.
 Proof.
-  destruct e as [|i|n| | |x|tid reset|tid|i]; simpl.
+  destruct e as [|i|n| | |x|tid reset|tid|i|]; simpl.
   - destruct (wf_created s); [discriminate|].
     destruct (dispatch _ _ _ _) as [t1 fl]; destruct fl; [|discriminate].
     destruct (check_and_complete _); discriminate.
@@ -220,6 +220,7 @@ Proof.
       * destruct (is_completed (a_state (get_act s aid))) eqn:Ec.
         -- intros _. exists (IResult aid res). split; [right; reflexivity|]. right. exact Ec.
         -- destruct (complete_task _ _ _ _ _) as [t1 fl]. destruct fl; discriminate.
+  - discriminate.
 Qed.
 
 (* ------------------------------------------------ rerun / skip refusals (C12) *)
